@@ -202,7 +202,7 @@ func runScnPayload(kind, format string, payload []byte, detail bool) (obs string
 	var c ctorRes
 	select {
 	case c = <-ctor:
-	case <-time.After(10 * time.Second):
+	case <-time.After(wd(10 * time.Second)):
 		return "end=hang"
 	}
 	if c.pan {
@@ -254,7 +254,7 @@ func runScnPayload(kind, format string, payload []byte, detail bool) (obs string
 	var end string
 	select {
 	case end = <-runDone:
-	case <-time.After(10 * time.Second):
+	case <-time.After(wd(10 * time.Second)):
 		return "end=hang"
 	}
 	if end != "ok" || !detail {
@@ -263,7 +263,7 @@ func runScnPayload(kind, format string, payload []byte, detail bool) (obs string
 	select {
 	case o := <-first:
 		return o
-	case <-time.After(5 * time.Second):
+	case <-time.After(wd(5 * time.Second)):
 		return "end=noammo"
 	}
 }
